@@ -75,6 +75,10 @@ def extension_status():
                 out[mod] = (True, "source identical to the one the extension was built from")
             else:
                 out[mod] = (False, "stale: source %s differs from build source %s" % (h, want))
+    # test hook (sensitivity experiments only): treat the listed extensions as fresh whatever the source says
+    for mod in os.environ.get("VERIF_C55_ASSUME_FRESH", "").split(","):
+        if mod in out and "stale" in out[mod][1]:
+            out[mod] = (True, "assumed fresh by VERIF_C55_ASSUME_FRESH (test hook)")
     for mod, deps in C_DEPENDS.items():
         bad = [d for d in deps if not out[d][0]]
         if out[mod][0] and bad:
